@@ -10,7 +10,9 @@ EXPLANATION = ("Q1 the transition relation of the start/next/finish shims, obtai
                "Closed returns the synthetic rc 80 without calls, otherwise the inner finish sets Closed and returns the stored result "
                "or the synthetic rc 88; Q7 a stream that was not read to the end (any state but Done) answers 88 even if a result is "
                "stored - or else every adapter path that starts a follow-up Search has emptied stream.res; Q2 the inner receive hands out ResultEntry(tag, controls) built from the received item's own "
-               "components, stores Done's result with its controls and returns Ok(None), maps a closed channel to Err(EndOfStream); "
+               "components, stores Done's result and returns Ok(None), maps a closed channel to Err(EndOfStream); the control list of the stored "
+               "result, as a list term over the list the received result carries itself and the vector received next to it, composed with "
+               "what the driver puts into those two when it forwards a SearchResultDone, is exactly the decoded control list - once; "
                "Q3 constants (is_ref <=> 19, is_intermediate <=> 25, 80, 88); Q4 Ldap::search = streaming_search_with(EntriesOnly) + "
                "push every entry in order + finish; EntriesOnly drops intermediates, collects referral URIs, passes everything else.")
 TRUSTED = ['the adapter chain is entered through these shims only (fields are private: witness crate)', 'tokio mpsc FIFO']
@@ -242,6 +244,8 @@ def run(ctx):
     ctx.analysed['bodies'].add(N.path)
     outs = [o for o in run_from(f, N, 'Active') if o.kind in ('val', 'ret')]
     kinds = set()
+    import donectrls
+    pairs, n_pairs = None, 0
     for o in outs:
         v = o.val
         # the received item: the Option<(SearchItem, Vec<Control>)> term is whatever the `item` match examined
@@ -265,18 +269,36 @@ def run(ctx):
         if v == ('ctor', 'Ok', (('ctor', 'None', ()),)):
             kinds.add('done')
             rx = o.st.heap.get(('field', SELF, 'rx'))
-            # what self.res holds when the path returns: Some(X) where X is the Done message's own result with exactly its control
-            # list replaced by the controls received in the same message (assigned field by field, or rebuilt with `..res`)
-            done, ctr, others = stored_final_result(o)
-            ok = done is not None and done[0] == 'variant' and done[2] == 'SearchItem::Done' and done[1][0] == 'field' and done[1][2] == '0' \
-                and ctr == ('field', done[1][1], '1') and not others and rx == ('ctor', 'None', ())
-            ctx.add('Q2.done-stores-result', 'Ok(None)', loc(N.root), ok, 'SearchResultDone: the result (with the message\'s controls) is not stored / receiver not dropped')
+            # what self.res holds when the path returns: Some(X) where X is the Done message's own result, nothing of it overwritten
+            # but its control list (assigned field by field, extended in place, or rebuilt with `..res`), and the receiver dropped
+            T, okst, _o = donectrls.stream_transfers(f, N, [o], stored_final_result)[0]
+            ok = okst and rx == ('ctor', 'None', ())
+            why = 'SearchResultDone: the result (with the message\'s controls) is not stored / receiver not dropped'
+            if ok:
+                # ... and that control list, as a function T(R, S) of the list R the received result carries itself and the vector S
+                # received next to it, composed with what the driver puts into R and S when it forwards a SearchResultDone, is exactly
+                # the control list decoded from the message: once, in order (not R ++ S with both carrying it, not an emptied vector)
+                if pairs is None:
+                    pairs = donectrls.driver_pairs(anchors.Conn(f))      # (a driver loop that cannot be anchored is reported as such)
+                if not pairs:
+                    why = 'SearchResultDone: no send of a final result found on the paths of the driver\'s response arm, so what the stored control list is composed with is not known'
+                n_pairs = len(pairs)
+                bad = [(R_, S_) for R_, S_, node in pairs if donectrls.compose(T, R_, S_) != donectrls.EXACT]
+                ok = bool(pairs) and not bad
+                if bad:
+                    R_, S_ = bad[0]
+                    why = ('SearchResultDone: the stored result\'s control list is %s; the driver sends the result with ctrls = %s and, next to it, %s: '
+                           'finish() returns LdapResult::ctrls = %s, not exactly the control list the server sent' % (
+                               donectrls.show(T), donectrls.show(R_), donectrls.show(S_), donectrls.show(donectrls.compose(T, R_, S_))))
+            ctx.add('Q2.done-stores-result', 'Ok(None)', loc(N.root), ok, why)
             continue
         if v[0] in ('tryerr',):
             continue
         ctx.fail('Q2.unexpected-return', absx.fmt(v)[:60], loc(N.root), 'unexpected return of next_inner')
     for need in ('eos', 'SearchItem::Entry', 'SearchItem::Referral', 'done'):
         ctx.add('Q2.coverage', need, loc(N.root), need in kinds, 'no path of next_inner for ' + need)
+    if 'done' in kinds and pairs is not None:
+        ctx.floor('Q2', 'sends of a SearchResultDone by the driver composed with the stream\'s Done paths', n_pairs, 1)
 
     # ------------------------------------------------------------------ Q3 constants
     for name, val in (('is_ref', 19), ('is_intermediate', 25)):
